@@ -31,53 +31,52 @@ Lemma find_app_c {A} (f : A -> bool) l1 l2 :
   find f (l1 ++ l2) = match find f l1 with Some x => Some x | None => find f l2 end.
 Proof. induction l1 as [|x l1 IH]; cbn [app find]; [reflexivity|]. destruct (f x); auto. Qed.
 
-(* ---------- the environment map is "last entry, any case" ---------- *)
-Definition env_matches (key : str) (e : str) : bool := beq (upper (fst (cut_eq e))) key.
+(* ---------- the environment map is "last NAME=VALUE entry, any case" ---------- *)
+Definition env_matches (key : str) (e : str) : bool :=
+  match snd (cut_eq e) with Some _ => true | None => false end
+  && beq (upper (fst (cut_eq e))) key.
 
-Lemma env_map_get environ : forall m0 m key,
-  env_map environ m0 = Ok m ->
-  map_get m key = match find (env_matches key) (rev environ) with
-                  | Some e => snd (cut_eq e)
-                  | None => map_get m0 key
-                  end.
+Lemma env_map_get environ : forall m0 key,
+  map_get (env_map environ m0) key
+  = match find (env_matches key) (rev environ) with
+    | Some e => snd (cut_eq e)
+    | None => map_get m0 key
+    end.
 Proof.
-  induction environ as [|e r IH]; intros m0 m key H; cbn [env_map] in H.
-  - inversion H; subst. reflexivity.
-  - destruct (cut_eq e) as [n o] eqn:Ec. destruct o as [v|]; [|discriminate].
-    specialize (IH _ _ key H). rewrite IH. cbn [rev]. rewrite find_app_c.
-    destruct (find (env_matches key) (rev r)); [reflexivity|].
-    cbn [find]. unfold env_matches at 1. rewrite Ec. cbn [fst snd].
-    rewrite map_get_set. destruct (beq (upper n) key); cbv beta iota; [rewrite Ec|]; reflexivity.
+  induction environ as [|e r IH]; intros m0 key; cbn [env_map].
+  - reflexivity.
+  - cbn [rev]. rewrite find_app_c. destruct (cut_eq e) as [n o] eqn:Ec. destruct o as [v|].
+    + rewrite IH. destruct (find (env_matches key) (rev r)); [reflexivity|].
+      cbn [find]. unfold env_matches at 1. rewrite Ec. cbn [fst snd andb].
+      rewrite map_get_set. destruct (beq (upper n) key); cbv beta iota; [rewrite Ec|]; reflexivity.
+    + rewrite IH. destruct (find (env_matches key) (rev r)); [reflexivity|].
+      cbn [find]. unfold env_matches at 1. rewrite Ec. cbn [snd andb]. reflexivity.
 Qed.
 
-Lemma env_map_value environ m key :
-  env_map environ [] = Ok m -> map_get m key = env_value environ key.
-Proof. intros H. rewrite (env_map_get _ _ _ key H). reflexivity. Qed.
+Lemma env_map_value environ key :
+  map_get (env_map environ []) key = env_value environ key.
+Proof. rewrite env_map_get. reflexivity. Qed.
 
-Lemma env_map_total environ : forall m0,
-  env_well_formed environ = true -> exists m, env_map environ m0 = Ok m.
+(* the loop before fix 3899f15: on blocks where every entry has an '=' it computes the
+   same map; on every other block it panics *)
+Lemma env_map_unrepaired_on_domain environ : forall m0,
+  env_well_formed environ = true -> env_map_unrepaired environ m0 = Ok (env_map environ m0).
 Proof.
-  induction environ as [|e r IH]; intros m0 H; cbn [env_map].
-  - eauto.
+  induction environ as [|e r IH]; intros m0 H; cbn [env_map env_map_unrepaired].
+  - reflexivity.
   - cbn [env_well_formed forallb] in H. apply andb_true_iff in H as [He Hr].
     destruct (cut_eq e) as [n o]. cbn [snd] in He. destruct o; [|discriminate].
     apply IH. exact Hr.
 Qed.
 
-Lemma env_map_panics environ : forall m0,
-  env_well_formed environ = false -> env_map environ m0 = Panic.
+Lemma env_map_unrepaired_panics environ : forall m0,
+  env_well_formed environ = false -> env_map_unrepaired environ m0 = Panic.
 Proof.
-  induction environ as [|e r IH]; intros m0 H; cbn [env_map].
+  induction environ as [|e r IH]; intros m0 H; cbn [env_map_unrepaired].
   - discriminate.
   - cbn [env_well_formed forallb] in H.
     destruct (cut_eq e) as [n o]. cbn [snd] in H. destruct o; [|reflexivity].
     apply IH. exact H.
-Qed.
-
-Lemma env_map_never_err environ : forall m0 k, env_map environ m0 <> Err k.
-Proof.
-  induction environ as [|e r IH]; intros m0 k; cbn [env_map]; [discriminate|].
-  destruct (cut_eq e) as [n [v|]]; [apply IH | discriminate].
 Qed.
 
 (* ---------- the command line: the last assignment ---------- *)
@@ -166,32 +165,31 @@ Section Main.
   Variable flags : list flagdecl.
   Variable bad : str -> str -> bool.
 
-  Lemma parse_flags_unfold args environ prefixes props calls env :
+  Lemma parse_flags_unfold args environ prefixes props calls :
     parse_args flags bad args [] = Ok calls ->
-    env_map environ [] = Ok env ->
     parse_flags flags bad args environ prefixes props
-    = Ok (map (visit calls (match prefixes with [] => [[]] | _ => prefixes end) env props) flags).
-  Proof. intros Hc He. unfold parse_flags. rewrite Hc. cbn [bind]. rewrite He. reflexivity. Qed.
+    = Ok (map (visit calls (match prefixes with [] => [[]] | _ => prefixes end)
+                     (env_map environ []) props) flags).
+  Proof. intros Hc. unfold parse_flags. rewrite Hc. reflexivity. Qed.
 
-  (* general form, any prefix list *)
+  (* general form, any prefix list, any environment block *)
   Theorem precedence_gen args environ prefixes props calls :
     parse_args flags bad args [] = Ok calls ->
-    env_well_formed environ = true ->
     exists rs,
       parse_flags flags bad args environ prefixes props = Ok rs /\
       Forall2 (fun f r => r_name r = fname f /\
                           final_raw r = spec_choice_gen calls environ prefixes props (fname f) /\
                           r_set r = is_some (final_raw r)) flags rs.
   Proof.
-    intros Hc Hw. destruct (env_map_total environ [] Hw) as [env He].
-    eexists. split; [apply (parse_flags_unfold _ _ _ _ _ _ Hc He)|].
+    intros Hc.
+    eexists. split; [apply (parse_flags_unfold _ _ _ _ _ Hc)|].
     generalize flags as l. clear Hc.
     induction l as [|f fs IH]; cbn [map]; constructor; [|exact IH].
-    destruct (visit_choice calls (match prefixes with [] => [[]] | _ => prefixes end) env props f)
-      as (Hn & Hf & Hs).
+    destruct (visit_choice calls (match prefixes with [] => [[]] | _ => prefixes end)
+                           (env_map environ []) props f) as (Hn & Hf & Hs).
     split; [exact Hn|]. split; [|exact Hs].
     rewrite Hf. unfold spec_choice_gen. f_equal. f_equal. f_equal.
-    apply map_ext. intros p. apply env_map_value. exact He.
+    apply map_ext. intros p. apply env_map_value.
   Qed.
 
   Lemma spec_choice_fabio calls environ props name :
@@ -201,13 +199,12 @@ Section Main.
   (* the five sources of config.Load *)
   Theorem precedence args environ props calls :
     parse_args flags bad args [] = Ok calls ->
-    env_well_formed environ = true ->
     exists rs,
       parse_flags flags bad args environ fabio_prefixes props = Ok rs /\
       Forall2 (fun f r => r_name r = fname f /\
                           final_raw r = spec_choice calls environ props (fname f) /\
                           r_set r = is_some (final_raw r)) flags rs.
-  Proof. intros Hc Hw. exact (precedence_gen args environ fabio_prefixes props calls Hc Hw). Qed.
+  Proof. intros Hc. exact (precedence_gen args environ fabio_prefixes props calls Hc). Qed.
 
   (* letter case of environment names does not matter *)
   Definition same_up_to_case (e e' : str) : Prop :=
@@ -219,7 +216,7 @@ Section Main.
   Proof.
     induction 1 as [|e e' r r' [Hn Ho] _ IH]; intros m0; cbn [env_map]; [reflexivity|].
     destruct (cut_eq e) as [n o], (cut_eq e') as [n' o']. cbn [fst snd] in *. subst o'.
-    destruct o; [rewrite Hn; apply IH | reflexivity].
+    destruct o; [rewrite Hn; apply IH | apply IH].
   Qed.
 
   Theorem env_case_insensitive args environ environ' prefixes props :
@@ -227,8 +224,7 @@ Section Main.
     parse_flags flags bad args environ prefixes props
     = parse_flags flags bad args environ' prefixes props.
   Proof.
-    intros H. unfold parse_flags. destruct (parse_args flags bad args []); cbn [bind]; try reflexivity.
-    rewrite (env_map_case _ _ H). reflexivity.
+    intros H. unfold parse_flags. rewrite (env_map_case _ _ H). reflexivity.
   Qed.
 
   (* ... nor does the case of the prefix the caller passes *)
@@ -240,16 +236,6 @@ Section Main.
     apply andb_true_iff in E as [E1 E2]. apply N.leb_le in E1, E2.
     replace ((97 <=? c - 32) && (c - 32 <=? 122)) with false; [reflexivity|].
     symmetry. apply andb_false_iff. left. apply N.leb_gt. lia.
-  Qed.
-
-  (* the environment entry without '=' *)
-  Theorem env_without_eq_panics args environ prefixes props calls :
-    parse_args flags bad args [] = Ok calls ->
-    env_well_formed environ = false ->
-    parse_flags flags bad args environ prefixes props = Panic.
-  Proof.
-    intros Hc Hw. unfold parse_flags. rewrite Hc. cbn [bind].
-    rewrite (env_map_panics _ _ Hw). reflexivity.
   Qed.
 
   (* flag.Parse itself never panics (nor does the model of it) *)
@@ -276,15 +262,48 @@ Section Main.
       + destruct (beq name _ || beq name _); discriminate.
   Qed.
 
-  Theorem parse_flags_never_panics_on_domain args environ prefixes props :
-    env_well_formed environ = true ->
+  (* ParseFlags never panics: every argument list, every environment block (entries
+     without '=' included), every prefix list, every properties map *)
+  Theorem parse_flags_never_panics args environ prefixes props :
     parse_flags flags bad args environ prefixes props <> Panic.
   Proof.
-    intros Hw. unfold parse_flags.
-    destruct (parse_args flags bad args []) as [calls|k|] eqn:Hc; cbn [bind].
-    - destruct (env_map_total environ [] Hw) as [env He]. rewrite He. discriminate.
-    - discriminate.
-    - exfalso. exact (parse_args_not_panic _ _ _ (le_n _) Hc).
+    unfold parse_flags.
+    destruct (parse_args flags bad args []) as [calls|k|] eqn:Hc; cbn [bind]; try discriminate.
+    exfalso. exact (parse_args_not_panic _ _ _ (le_n _) Hc).
+  Qed.
+
+  (* entries without '=' are as good as absent *)
+  Theorem entries_without_eq_ignored args environ prefixes props :
+    parse_flags flags bad args environ prefixes props
+    = parse_flags flags bad args
+        (filter (fun e => match snd (cut_eq e) with Some _ => true | None => false end) environ)
+        prefixes props.
+  Proof.
+    unfold parse_flags. f_equal.
+    assert (H : forall m0, env_map environ m0 =
+              env_map (filter (fun e => match snd (cut_eq e) with Some _ => true | None => false end) environ) m0).
+    { induction environ as [|e r IH]; intros m0; cbn [env_map filter]; [reflexivity|].
+      destruct (cut_eq e) as [n o] eqn:Ec. cbn [snd]. destruct o; cbn [env_map]; [rewrite Ec|]; apply IH. }
+    rewrite H. reflexivity.
+  Qed.
+
+  (* ---- the loop before fix 3899f15 (repaired in /repo) ---- *)
+  Theorem unrepaired_env_without_eq_panics args environ prefixes props calls :
+    parse_args flags bad args [] = Ok calls ->
+    env_well_formed environ = false ->
+    parse_flags_unrepaired flags bad args environ prefixes props = Panic.
+  Proof.
+    intros Hc Hw. unfold parse_flags_unrepaired. rewrite Hc. cbn [bind].
+    rewrite (env_map_unrepaired_panics _ _ Hw). reflexivity.
+  Qed.
+
+  Theorem unrepaired_agrees_on_domain args environ prefixes props :
+    env_well_formed environ = true ->
+    parse_flags_unrepaired flags bad args environ prefixes props
+    = parse_flags flags bad args environ prefixes props.
+  Proof.
+    intros Hw. unfold parse_flags_unrepaired, parse_flags.
+    rewrite (env_map_unrepaired_on_domain _ _ Hw). reflexivity.
   Qed.
 End Main.
 
@@ -308,15 +327,14 @@ Qed.
    and the flag counts as set *)
 Theorem source_equivalence flags bad args environ props calls k v f :
   parse_args flags bad args [] = Ok calls ->
-  env_well_formed environ = true ->
   In f flags -> In k [1; 2; 3; 4] ->
   only_source calls environ props (fname f) k v ->
   exists rs r,
     parse_flags flags bad args environ fabio_prefixes props = Ok rs /\ In r rs /\
     r_name r = fname f /\ final_raw r = Some v /\ r_set r = true.
 Proof.
-  intros Hc Hw Hf Hk Ho.
-  destruct (precedence flags bad args environ props calls Hc Hw) as (rs & Hp & Hall).
+  intros Hc Hf Hk Ho.
+  destruct (precedence flags bad args environ props calls Hc) as (rs & Hp & Hall).
   exists rs.
   assert (exists r, In r rs /\ r_name r = fname f /\
                     final_raw r = spec_choice calls environ props (fname f) /\
@@ -334,10 +352,18 @@ Definition ex_flags : list flagdecl :=
   [{| fname := bs "proxy.addr"; fbool := false |}; {| fname := bs "insecure"; fbool := true |}].
 Definition no_bad_values (_ _ : str) : bool := false.
 
-(* FOO (no '=') in the environment: ParseFlags panics whatever else is configured *)
-Lemma env_without_eq_witness flags bad prefixes props :
-  parse_flags flags bad [] [bs "FOO"] prefixes props = Panic.
+(* FOO (no '=') in the environment: ParseFlags before fix 3899f15 panicked whatever else
+   was configured (repaired in /repo); the current one ignores the entry *)
+Lemma unrepaired_env_without_eq_witness flags bad prefixes props :
+  parse_flags_unrepaired flags bad [] [bs "FOO"] prefixes props = Panic.
 Proof. reflexivity. Qed.
+
+Example env_without_eq_skipped :
+  option_map (map final_raw)
+    (match parse_flags ex_flags no_bad_values [] [bs "FOO"; bs "proxy_addr=:3"; bs ""; bs "PROXY_ADDR"]
+                       fabio_prefixes None with Ok rs => Some rs | _ => None end)
+  = Some [Some (bs ":3"); None].
+Proof. vm_compute. reflexivity. Qed.
 
 (* all five sources at once: the command line wins; drop it and FABIO_ wins; and so on *)
 Example precedence_nonvacuous :
@@ -347,7 +373,6 @@ Example precedence_nonvacuous :
      (match parse_flags ex_flags no_bad_values [bs "-proxy.addr=:1"] env fabio_prefixes props with Ok rs => Some rs | _ => None end))
   = Some (Some (bs ":1")) /\
   parse_args ex_flags no_bad_values [bs "-proxy.addr=:1"] [] = Ok [(bs "proxy.addr", bs ":1")] /\
-  env_well_formed env = true /\
   spec_choice [] env props (bs "proxy.addr") = Some (bs ":2") /\
   spec_choice [] [bs "proxy_addr=:3"] props (bs "proxy.addr") = Some (bs ":3") /\
   spec_choice [] [] props (bs "proxy.addr") = Some (bs ":4") /\
